@@ -249,10 +249,12 @@ func init() {
 				docs, qs := acDocsQueries(r, i%2 == 0)
 				acTwoPatternFields = false
 				switch i % 3 {
-				case 0:
-					add(eCase{Kind: "kgroups", Policy: "error", Configs: map[int]string{1: "ac_matcher", 2: "ac_matcher"}, Docs: docs, Queries: qs})
-				case 1:
-					add(eCase{Kind: "compact", Policy: "error", Configs: map[int]string{1: "ac_matcher", 2: "ac_matcher"}, Docs: docs, Queries: qs})
+				case 0, 1:
+					c := eCase{Kind: []string{"kgroups", "compact"}[i%3], Policy: "error", Configs: map[int]string{1: "ac_matcher", 2: "ac_matcher"}, Docs: docs, Queries: qs}
+					if i%5 == 0 {
+						c = withPre(c)
+					}
+					add(c)
 				default:
 					c := rCase{Fields: []rField{{F: 0, Cont: "default"}, {F: 1, Cont: "ac_matcher"}, {F: 2, Cont: "ac_matcher"}}, Docs: docs}
 					for _, q := range qs {
